@@ -832,7 +832,12 @@ impl<'a> Lexer<'a> {
                         next_token = Some(t);
                         break;
                     }
-                    None => (),
+                    None => {
+                        // an error is final: do not keep consuming characters, a later token would overwrite it
+                        if self.result.is_err() {
+                            return None;
+                        }
+                    }
                 },
                 None => {
                     self.at_end = true;
